@@ -20,10 +20,8 @@ func (msg *MsgUpdateParams) Type() string {
 }
 
 func (msg *MsgUpdateParams) GetSigners() []sdk.AccAddress {
-	creator, err := sdk.AccAddressFromBech32(msg.Authority)
-	if err != nil {
-		panic(err)
-	}
+	// no panic on a malformed address: x/authz and the ICA host ask a message for its signers before validating it
+	creator, _ := sdk.AccAddressFromBech32(msg.Authority)
 	return []sdk.AccAddress{creator}
 }
 
@@ -56,10 +54,8 @@ func (msg *MsgUpdateSubDistributorParam) Type() string {
 }
 
 func (msg *MsgUpdateSubDistributorParam) GetSigners() []sdk.AccAddress {
-	creator, err := sdk.AccAddressFromBech32(msg.Authority)
-	if err != nil {
-		panic(err)
-	}
+	// no panic on a malformed address: x/authz and the ICA host ask a message for its signers before validating it
+	creator, _ := sdk.AccAddressFromBech32(msg.Authority)
 	return []sdk.AccAddress{creator}
 }
 
@@ -95,10 +91,8 @@ func (msg *MsgUpdateSubDistributorBurnShareParam) Type() string {
 }
 
 func (msg *MsgUpdateSubDistributorBurnShareParam) GetSigners() []sdk.AccAddress {
-	creator, err := sdk.AccAddressFromBech32(msg.Authority)
-	if err != nil {
-		panic(err)
-	}
+	// no panic on a malformed address: x/authz and the ICA host ask a message for its signers before validating it
+	creator, _ := sdk.AccAddressFromBech32(msg.Authority)
 	return []sdk.AccAddress{creator}
 }
 
@@ -136,10 +130,8 @@ func (msg *MsgUpdateSubDistributorDestinationShareParam) Type() string {
 }
 
 func (msg *MsgUpdateSubDistributorDestinationShareParam) GetSigners() []sdk.AccAddress {
-	creator, err := sdk.AccAddressFromBech32(msg.Authority)
-	if err != nil {
-		panic(err)
-	}
+	// no panic on a malformed address: x/authz and the ICA host ask a message for its signers before validating it
+	creator, _ := sdk.AccAddressFromBech32(msg.Authority)
 	return []sdk.AccAddress{creator}
 }
 
